@@ -232,6 +232,7 @@ impl ExpList {
 }
 
 pub struct Evaluator<'a> {
+    #[allow(dead_code)]
     pub schema: &'a Schema,
     pub store: &'a Store,
     pub quirks: Quirks,
@@ -750,7 +751,19 @@ impl<'a> Evaluator<'a> {
                         _ => false,
                     };
                     if arbitrary {
-                        SqlVal::Null
+                        // determined only when every member of the group agrees
+                        let vals: Vec<SqlVal> = members
+                            .iter()
+                            .map(|m| match &o.target {
+                                Target::Field(f) => self.field_sql(m.0, f, true),
+                                Target::Alias(a) => self.output_sql(&m.1, a),
+                                _ => SqlVal::Null,
+                            })
+                            .collect();
+                        match vals.first() {
+                            Some(v) if vals.iter().all(|x| x.cmp_total(v) == Ordering::Equal) => v.clone(),
+                            _ => SqlVal::Null,
+                        }
                     } else {
                         self.order_key(first, &obj, o)
                     }
@@ -791,7 +804,7 @@ impl<'a> Evaluator<'a> {
             }
         }
         match func {
-            Func::Sum => J::from(vals.iter().filter_map(|v| v.0.as_f64()).sum::<f64>()),
+            Func::Sum => J::from(0.0 + vals.iter().filter_map(|v| v.0.as_f64()).sum::<f64>()),
             Func::Avg => {
                 if vals.is_empty() {
                     J::Null
